@@ -474,9 +474,23 @@ func (o *c13Oracle) AfterRun(w *World, op *Op, res *RunResult) {
 		// entities that appeared after the generation run have no stored hash to compare with; only
 		// entities generated back then count as "unchanged configuration"
 		var stale []string
+		tzChanged := false
+		for _, op := range w.Plan.Ops {
+			if op.K == "tz" {
+				tzChanged = true
+			}
+		}
 		for _, c := range res.Plan {
 			if e := w.EntByAlias(c.Alias); e != nil {
 				if _, had := o.hashBefore[e.ID]; had {
+					if tzChanged && validityStatic(w, e) {
+						continue // local midnight of a configured date is another instant in another zone
+					}
+					if tzChanged && e.Issuer != "" {
+						if ie := w.EntByAlias(e.Issuer); ie != nil && validityStatic(w, ie) {
+							continue // regenerated because its issuer legitimately is
+						}
+					}
 					stale = append(stale, c.Alias)
 				}
 			}
@@ -491,6 +505,15 @@ func (o *c13Oracle) AfterRun(w *World, op *Op, res *RunResult) {
 		}
 		after := hashLines(w)
 		for id, h := range o.hashBefore {
+			tz := false
+			for _, op := range w.Plan.Ops {
+				if op.K == "tz" {
+					tz = true
+				}
+			}
+			if e := w.Ents[id]; tz && e != nil && validityStatic(w, e) {
+				continue
+			}
 			if after[id] != h {
 				w.Fail("invariance:hash-line-differs", "entity %s after %s: hash line written now %q differs from the one written at generation %q although the configuration is unchanged", id, invOps(w.Plan), after[id], h)
 				return
@@ -516,7 +539,11 @@ func exploreC13Invariance(t *testing.T, seed uint64, idx int, tier string, sink 
 	cur, curProf := tgt.Clone(), prof.Clone()
 	var sibs []*EntitySpec
 	for i := 0; i < n; i++ {
-		switch r.Intn(8) {
+		switch r.Intn(9) {
+		case 8: // the machine's time zone changes; a validity without from yields the same certificate
+			// (up to run-relative dates) in every zone, so its hash must not move
+			addOp(Op{K: "tz", Arg: Pick(r, c04Zones), Label: "tz-change"})
+			did = append(did, "tz-change")
 		case 6: // another entity appears in the directory (same profile, same issuer): walk order and
 			// whatever state is shared between entities change, the target's configuration does not
 			sib := &EntitySpec{ID: fmt.Sprintf("s%d", i), Name: Pick(r, []string{"aaa", "sibling", "zzz", "t0", "target2"}) + fmt.Sprint(i), Ext: "yaml", Issuer: "root-a",
